@@ -2055,6 +2055,15 @@ def generic_default(ex, m, a, fr, dest):
     return NotImplemented
 
 
+@model(r'<(u16|u32|u64|u128|usize|i16|i32|i64|i128|isize) as From<(u8|u16|u32|u64|i8|i16|i32|i64|bool|char)>>::from|<(u8|u16|u32|u64|i8|i16|i32|i64) as Into<(u16|u32|u64|u128|usize|i16|i32|i64|i128|isize)>>::into')
+def int_widen(ex, m, a, fr, dest):
+    """Lossless integer conversions (From is only implemented where no value is lost)."""
+    v = a[0]
+    if isinstance(v, bool):
+        return 1 if v else 0
+    return v
+
+
 # ============================================================================ write-once cells (tokio::sync::OnceCell, std::sync::OnceLock)
 class OnceCellV(Model):
     """A cell that is set at most once; shared by reference like the real one (an Arc around it aliases it)."""
